@@ -48,7 +48,9 @@ CondPool ==
          Cond(N_w, "LIKE", <<OStr(<<37>>)>>), Cond(N_a, "IN", <<OList(<<OName(N_u), OName(N_b), ONum(NInt(3))>>)>>),
          Cond(N_a, "BETWEEN", <<OName(N_u), OName(N_b)>>)>>
 \* each condition kind at each leaf of the depth-1 shapes
-Shapes1(c) == <<c, Grp("NOT", <<c>>), Grp("AND", <<c, LeafB>>), Grp("OR", <<LeafA, c>>), Grp("AND", <<Grp("OR", <<c, LeafB>>), c>>),
+Shapes1(c) == <<Grp("NOT", <<Grp("AND", <<c, Grp("OR", <<LeafA, c>>)>>)>>), Grp("NOT", <<Grp("AND", <<Grp("OR", <<c, LeafB>>), c>>)>>),
+                Grp("NOT", <<Grp("OR", <<c, Grp("AND", <<LeafA, c>>)>>)>>), Grp("AND", <<Grp("NOT", <<Grp("OR", <<c, LeafB>>)>>), Grp("OR", <<LeafA, c>>)>>),
+                c, Grp("NOT", <<c>>), Grp("AND", <<c, LeafB>>), Grp("OR", <<LeafA, c>>), Grp("AND", <<Grp("OR", <<c, LeafB>>), c>>),
                 Grp("NOT", <<Grp("AND", <<c, c>>)>>), Grp("OR", <<Grp("NOT", <<c>>), Grp("AND", <<LeafA, c>>)>>)>>
 Universe == IF P_MODE = "trees" THEN Trees(P_SIZE) ELSE Concat(Map1(CondPool, Shapes1))
 NU == Len(Universe)
